@@ -10,7 +10,6 @@ package c02
 import (
 	"encoding/json"
 	"fmt"
-	"os"
 	"sort"
 	"strings"
 	"sync"
@@ -98,37 +97,88 @@ func (c *config) varPlacements(rule string) []Placement {
 	return plFunc
 }
 
-func wantDump(pl Placement) bool { return pl == PGlobal || pl == PFunc || pl == PArrow }
+// wantDump: placements whose program dump shows the compiled program text (eval code is compiled at run time and
+// is not part of the dump of the calling script).
+func wantDump(pl Placement) bool { return pl == PGlobal || pl == PFunc }
 
-// worker holds the per-goroutine state.
+// worker holds the state of one explorer (one per worker process; replay uses one in-process).
 type worker struct {
-	r    *core.Run
 	cfg  *config
 	in   *irjs.Interp
 	eng  *engine
 	seen *shardedSet
-	// counters, flushed at the end of a chunk
-	programs, disagreements, evals, nontrivial, trivialPairs, invalid, aborted, compileRejected int64
-	perRule                                                                                     map[string]int64
+	// counters and findings, handed over by takeResults
+	programs, disagreements, evals, nontrivial, trivialPairs, invalid, aborted int64
+	perRule                                                                    map[string]int64
+	violations                                                                 []violationRec
+	samples                                                                    []map[string]interface{}
 }
 
-func newWorker(r *core.Run, cfg *config, seen *shardedSet) *worker {
-	return &worker{r: r, cfg: cfg, in: irjs.NewInterp(irjs.NewHost()), eng: &engine{}, seen: seen, perRule: map[string]int64{}}
+// violationRec is one reported failure (merged by signature in the parent / core).
+type violationRec struct {
+	Sig   string `json:"sig"`
+	What  string `json:"what"`
+	Case  Case   `json:"case"`
+	Count int64  `json:"count"`
 }
 
-func (w *worker) flush() {
-	w.r.Programs(w.programs)
-	w.r.Disagreements(w.disagreements)
-	w.r.Eval(w.evals)
-	w.r.NontrivialN(w.nontrivial)
-	w.r.Add("trivial_pairs_same_bytecode", w.trivialPairs)
-	w.r.Add("ir_rejected_static", w.invalid)
-	w.r.Add("ir_no_verdict_budget", w.aborted)
-	for k, v := range w.perRule {
-		w.r.Add("variants_"+k, v)
+// results is what a worker hands over after a task.
+type results struct {
+	Programs      int64                    `json:"programs"`
+	Disagreements int64                    `json:"disagreements"`
+	Evals         int64                    `json:"evals"`
+	Nontrivial    int64                    `json:"nontrivial"`
+	TrivialPairs  int64                    `json:"trivial_pairs"`
+	Invalid       int64                    `json:"invalid"`
+	Aborted       int64                    `json:"aborted"`
+	PerRule       map[string]int64         `json:"per_rule,omitempty"`
+	Violations    []violationRec           `json:"violations,omitempty"`
+	Samples       []map[string]interface{} `json:"samples,omitempty"`
+}
+
+func newWorker(cfg *config, seen *shardedSet) *worker {
+	return &worker{cfg: cfg, in: irjs.NewInterp(irjs.NewHost()), eng: &engine{}, seen: seen, perRule: map[string]int64{}}
+}
+
+func (w *worker) violation(sig, what string, c Case) {
+	for i := range w.violations {
+		if w.violations[i].Sig == sig {
+			w.violations[i].Count++
+			return
+		}
 	}
+	w.violations = append(w.violations, violationRec{Sig: sig, What: what, Case: c, Count: 1})
+}
+
+func (w *worker) takeResults() results {
+	res := results{Programs: w.programs, Disagreements: w.disagreements, Evals: w.evals, Nontrivial: w.nontrivial, TrivialPairs: w.trivialPairs,
+		Invalid: w.invalid, Aborted: w.aborted, PerRule: w.perRule, Violations: w.violations, Samples: w.samples}
 	w.programs, w.disagreements, w.evals, w.nontrivial, w.trivialPairs, w.invalid, w.aborted = 0, 0, 0, 0, 0, 0, 0
 	w.perRule = map[string]int64{}
+	w.violations, w.samples = nil, nil
+	return res
+}
+
+// merge adds a worker's results to the run.
+func merge(r *core.Run, res *results) {
+	r.Programs(res.Programs)
+	r.Disagreements(res.Disagreements)
+	r.Eval(res.Evals)
+	r.NontrivialN(res.Nontrivial)
+	r.Add("trivial_pairs_same_bytecode", res.TrivialPairs)
+	r.Add("ir_rejected_static", res.Invalid)
+	r.Add("ir_no_verdict_budget", res.Aborted)
+	for k, v := range res.PerRule {
+		r.Add("variants_"+k, v)
+	}
+	for _, v := range res.Violations {
+		for i := int64(0); i < v.Count; i++ {
+			r.Violation(v.Sig, v.What, v.Case)
+		}
+	}
+	for _, s := range res.Samples {
+		r.Sample(s)
+	}
 }
 
 // refRun interprets the IR definitionally; an abort (budget / unsupported) discards the interpreter's runtime.
@@ -306,6 +356,10 @@ func pairVariants(v *Variant) []Variant {
 }
 
 func (w *worker) checkVariant(p *irjs.Node, js string, v *Variant, strict bool, names []string, bases *[nPlacements]*runOut, ref *irjs.Result) (fails []failure) {
+	if crashShape(v.Prog) {
+		w.perRule["skipped_known_fatal_shape"]++
+		return nil
+	}
 	vjs := irjs.Print(modeProg(v.Prog, strict))
 	vnames := identNames(v.Prog)
 	rule := ruleOf(v.Desc)
@@ -318,7 +372,8 @@ func (w *worker) checkVariant(p *irjs.Node, js string, v *Variant, strict bool, 
 		if base == nil || base.compileErr != "" || base.res.Abort != "" {
 			continue
 		}
-		out := w.eng.run(wrap(vjs, pl), pl, vnames, wantDump(pl))
+		needDump := pl == PFunc // the other placements reuse the verdict of the function placement (same text change)
+		out := w.eng.run(wrap(vjs, pl), pl, vnames, needDump)
 		w.programs++
 		w.evals++
 		w.perRule[rule]++
@@ -326,7 +381,7 @@ func (w *worker) checkVariant(p *irjs.Node, js string, v *Variant, strict bool, 
 			fails = append(fails, failure{oracle: "compile", kind: "compile", placement: pl.String(), rewrite: v.Desc, strict: strict, got: firstLine(out.compileErr), baseJS: js, caseJS: vjs})
 			continue
 		}
-		if wantDump(pl) {
+		if needDump {
 			differs = out.dumpHash != base.dumpHash
 		}
 		if differs {
@@ -438,7 +493,7 @@ func (w *worker) recheck(q *irjs.Node, f *failure) *failure {
 	})
 	for i := range cands {
 		v := &cands[i]
-		if v.SloppyOnly && f.strict {
+		if v.SloppyOnly && f.strict || crashShape(v.Prog) {
 			continue
 		}
 		vjs := irjs.Print(modeProg(v.Prog, f.strict))
@@ -919,18 +974,18 @@ func (w *worker) report(p *irjs.Node, slice string, f failure) {
 	if e.sig != "" && (cls != "" || e.shrunk >= shrinkPerFingerprint) {
 		sig, what, c := e.sig, e.what, e.c
 		sigCache.mu.Unlock()
-		w.r.Violation(sig, what, c)
+		w.violation(sig, what, c)
 		return
 	}
 	e.shrunk++
 	sigCache.mu.Unlock()
 
-	fresh := newWorker(w.r, w.cfg, newShardedSet())
+	fresh := newWorker(w.cfg, newShardedSet())
 	for i := 0; i < 5; i++ {
 		fresh.eng = &engine{}
 		fresh.in = irjs.NewInterp(irjs.NewHost())
 		if fresh.recheck(p, &f) == nil {
-			w.r.Violation("nondeterministic|"+f.oracle+"|"+f.kind, "a disagreement did not reproduce on fresh runtimes", w.mkCase(p, p, slice, &f, "nondeterministic"))
+			w.violation("nondeterministic|"+f.oracle+"|"+f.kind, "a disagreement did not reproduce on fresh runtimes", w.mkCase(p, p, slice, &f, "nondeterministic"))
 			return
 		}
 	}
@@ -941,7 +996,7 @@ func (w *worker) report(p *irjs.Node, slice string, f failure) {
 	sigCache.mu.Lock()
 	e.sig, e.what, e.c = sig, what, c
 	sigCache.mu.Unlock()
-	w.r.Violation(sig, what, c)
+	w.violation(sig, what, c)
 }
 
 func (w *worker) mkCase(q, origin *irjs.Node, slice string, f *failure, sig string) Case {
@@ -982,14 +1037,21 @@ func replay(r *core.Run, raw json.RawMessage) {
 		return
 	}
 	cfg := fullConfig(true)
-	w := newWorker(r, cfg, newShardedSet())
-	f := failure{oracle: c.Oracle, kind: c.Kind, rewrite: c.Rewrite, strict: c.Strict, got: c.Got}
+	w := newWorker(cfg, newShardedSet())
 	r.Eval(1)
+	if c.Oracle == "fatal" {
+		// the whole check of the program is repeated in this process: the fatal error, if it persists, ends the replay
+		// with the Go runtime's own report and a non-zero exit status
+		reportAll(w, p, c.Slice)
+		res := w.takeResults()
+		merge(r, &res)
+		return
+	}
+	f := failure{oracle: c.Oracle, kind: c.Kind, rewrite: c.Rewrite, strict: c.Strict, got: c.Got}
 	f.placement = c.Placement
 	if g := w.recheck(p, &f); g != nil {
 		r.Violation(c.Sig, describe(g, p), w.mkCase(p, p, c.Slice, g, c.Sig))
 	}
-	w.flush()
 }
 
 // ---------- run ----------
@@ -1005,46 +1067,6 @@ func fullConfig(pairs bool) *config {
 // (+ global code for the completion-sensitive rules).
 func quickConfig() *config {
 	return &config{placements: allPlacements}
-}
-
-func run(r *core.Run) {
-	r.Assume("the reference interpreter irjs uses the engine only for primitive operators on primitive values and for object primitives (get/set/define/delete/has, allocation, error construction) through pre-compiled one-line lambdas; every conversion of an object operand, every scoping, ordering, control-flow and completion-value decision is taken by irjs itself")
-	r.Assume("engine-created errors are compared by constructor name only (messages are implementation-defined and depend on the instruction selected); thrown program values by their rendered value")
-	r.Assume("programs whose reference run exceeds 4000 interpreter steps / call depth 40 give no verdict (counted as ir_no_verdict_budget); engine runs are cut at 200000 VM instructions")
-	r.Assume("sloppy-mode block-level function declarations (Annex B.3.3 hoisting, not implemented by the engine) are kept out of the alphabet: programs with a function declaration in a block run in strict mode only")
-	seen := newShardedSet()
-	bounds := map[string]interface{}{}
-	complete := true
-
-	// 1. regression corpus (known findings + hand-written anchors), single rewrites, all placements
-	cfgCorpus := fullConfig(r.Thorough())
-	complete = runCorpus(r, cfgCorpus, seen, bounds) && complete
-
-	// 2. grammar slices, by increasing size across all slices
-	complete = runSlices(r, seen, bounds) && complete
-
-	r.Set("bounds_completed", bounds)
-	r.Exhaustive(complete)
-}
-
-func runCorpus(r *core.Run, cfg *config, seen *shardedSet, bounds map[string]interface{}) bool {
-	ok := r.Parallel(int64(len(corpus)), 1, func(_ int, lo, hi int64) {
-		w := newWorker(r, cfg, seen)
-		for i := lo; i < hi; i++ {
-			p := irjs.MustParse(corpus[i])
-			if v, _, why := Validate(p); !v {
-				r.Violation("corpus|invalid", "corpus program rejected by the static validity check: "+why, Case{IR: corpus[i]})
-				continue
-			}
-			if i < 3 {
-				r.Sample(map[string]interface{}{"slice": "corpus", "ir": corpus[i], "js": irjs.Print(p)})
-			}
-			reportAll(w, p, "corpus")
-		}
-		w.flush()
-	})
-	bounds["corpus"] = fmt.Sprintf("%d fixed programs x all placements x modes x single rewrites", len(corpus))
-	return ok
 }
 
 // reportAll checks one program and reports one failure per (oracle, kind, rule) class.
@@ -1078,68 +1100,4 @@ next:
 		}
 		w.report(p, slice, f)
 	}
-}
-
-func runSlices(r *core.Run, seen *shardedSet, bounds map[string]interface{}) bool {
-	slices := slices
-	if only := os.Getenv("C02_SLICES"); only != "" { // development aid: restrict the run to some slices
-		var sel []slice
-		for _, s := range slices {
-			if strings.Contains(","+only+",", ","+s.name+",") {
-				sel = append(sel, s)
-			}
-		}
-		slices = sel
-		r.Exhaustive(false)
-		defer r.Set("slices_restricted_by_env", only)
-	}
-	maxN := 0
-	for _, s := range slices {
-		if n := r.Pick(s.quickN, s.thorN); n > maxN {
-			maxN = n
-		}
-	}
-	gs := make([]*Grammar, len(slices))
-	for i, s := range slices {
-		gs[i] = MustGrammar(s.text, r.Pick(s.quickN, s.thorN))
-	}
-	cfg := quickConfig()
-	if r.Thorough() {
-		cfg = fullConfig(false)
-	}
-	cfgPairs := fullConfig(true)
-	for n := 1; n <= maxN; n++ {
-		for i, s := range slices {
-			bound := r.Pick(s.quickN, s.thorN)
-			if n > bound {
-				continue
-			}
-			cnt := int64(gs[i].Count(s.start, n))
-			if cnt == 0 {
-				continue
-			}
-			g, sp := gs[i], s
-			c := cfg
-			if r.Thorough() && n <= s.pairN {
-				c = cfgPairs
-			}
-			ok := r.Parallel(cnt, 64, func(_ int, lo, hi int64) {
-				w := newWorker(r, c, seen)
-				for idx := lo; idx < hi; idx++ {
-					p := g.Unrank(sp.start, n, uint64(idx))
-					if r.WantSample(idx) && idx > 16 {
-						r.Sample(map[string]interface{}{"slice": sp.name, "nodes": n, "rank": idx, "ir": p.String(), "js": irjs.Print(p)})
-					}
-					reportAll(w, p, fmt.Sprintf("%s/n=%d/rank=%d", sp.name, n, idx))
-				}
-				w.flush()
-			})
-			if !ok {
-				bounds["slice "+s.name] = fmt.Sprintf("nodes<=%d complete; size %d (%d trees) cut by the deadline", n-1, n, cnt)
-				return false
-			}
-			bounds["slice "+s.name] = fmt.Sprintf("nodes<=%d complete (%d trees at the last size)", n, cnt)
-		}
-	}
-	return true
 }
